@@ -93,3 +93,48 @@ Proof.
   destruct Ht as [E|[E|[E|[]]]]; subst t; cbn; rewrite ?map_app_nil_id;
     repeat split; eauto; try discriminate; intros H; try reflexivity; try (exfalso; apply H; reflexivity).
 Qed.
+
+(* ---------------------------------------------------------------- first open of a brand-new file *)
+Definition identity_fresh_reach : list (xstate content) := reach [] identity_ucfg [].
+Definition wallet_fresh_reach : list (xstate content) := reach [] wallet_ucfg [].
+
+Lemma identity_fresh_closed : closed_check [] identity_ucfg [] identity_fresh_reach = true.
+Proof. vm_compute. reflexivity. Qed.
+Lemma identity_fresh_class : class_check [] identity_ucfg identity_fresh_reach identity_new identity_fresh_reach = true.
+Proof. vm_compute. reflexivity. Qed.
+Lemma wallet_fresh_closed : closed_check [] wallet_ucfg [] wallet_fresh_reach = true.
+Proof. vm_compute. reflexivity. Qed.
+Lemma wallet_fresh_class : class_check [] wallet_ucfg wallet_fresh_reach wallet_new wallet_fresh_reach = true.
+Proof. vm_compute. reflexivity. Qed.
+
+Lemma wf_no_sources env : wf_env [] env.
+Proof. constructor. Qed.
+
+Definition identity_creation (ks : list nat) :=
+  xhistory apply_c version_c identity_ucfg (fresh_conn []) (kills ks).
+Definition wallet_creation (ks : list nat) :=
+  xhistory apply_c version_c wallet_ucfg (fresh_conn []) (kills ks).
+
+Lemma identity_creation_l : forall ks,
+  let c := identity_creation ks in
+  c_intx c = false /\ c_view c = c_dur c /\
+  exists tr cf, xopen apply_c version_c identity_ucfg c = (tr, cf, ODone) /\ c_intx cf = false /\
+                forall id, find_tab (c_dur cf) id = find_tab (conc no_rows identity_new) id.
+Proof.
+  intros ks.
+  destruct (upgrade_kill_safe [] identity_ucfg [] identity_fresh_reach identity_new identity_fresh_reach
+              identity_fresh_closed identity_fresh_class no_rows (wf_no_sources no_rows) ks) as [A [B [_ C]]].
+  exact (conj A (conj B C)).
+Qed.
+
+Lemma wallet_creation_l : forall ks,
+  let c := wallet_creation ks in
+  c_intx c = false /\ c_view c = c_dur c /\
+  exists tr cf, xopen apply_c version_c wallet_ucfg c = (tr, cf, ODone) /\ c_intx cf = false /\
+                forall id, find_tab (c_dur cf) id = find_tab (conc no_rows wallet_new) id.
+Proof.
+  intros ks.
+  destruct (upgrade_kill_safe [] wallet_ucfg [] wallet_fresh_reach wallet_new wallet_fresh_reach
+              wallet_fresh_closed wallet_fresh_class no_rows (wf_no_sources no_rows) ks) as [A [B [_ C]]].
+  exact (conj A (conj B C)).
+Qed.
